@@ -85,6 +85,15 @@ type Run struct {
 	assume  []string
 	rule    string
 	notes   []string
+	harness []string
+}
+
+// DeferHarnessError records a harness error of one sub-check without aborting: violations found by
+// other sub-checks are still reported (exit 1 takes precedence); with no violation the run exits 2.
+func (r *Run) DeferHarnessError(format string, a ...any) {
+	r.mu.Lock()
+	r.harness = append(r.harness, fmt.Sprintf(format, a...))
+	r.mu.Unlock()
 }
 
 // Start parses the common flags.
@@ -322,8 +331,14 @@ func (r *Run) Finish() {
 	for _, s := range r.subs {
 		fmt.Printf("  sub %-40s evals=%-9d nontrivial=%-8d outcomes=%-6d exhaustive=%v %s %.1fs\n", s.Name, s.Evaluations, s.Nontrivial, s.Outcomes, s.Exhaustive, s.BoundCompleted, s.WallS)
 	}
+	for _, h := range r.harness {
+		fmt.Printf("HARNESS-ERROR %s\n", h)
+	}
 	if unlisted > 0 {
 		os.Exit(1)
+	}
+	if len(r.harness) > 0 {
+		os.Exit(2)
 	}
 	os.Exit(0)
 }
